@@ -5,7 +5,10 @@
 //! relative to the finalized / cached check points.  Oracles: a message that moves the filtered
 //! height or records matched blocks must carry the chain's own filters and block hashes in the
 //! accepted prefix; after convergence with the honest peers the index must equal the ground
-//! truth.  Every `BlockFilters` delivery is compared with the `Filter` Lean layer.
+//! truth.  Every `BlockFilters` delivery is compared with the `Filter` Lean layer (`msg` op), and
+//! every `BlockFilterHashes` delivery that takes the cached branch of `BlockFilterHashesProcess`
+//! (honest rounds, attack messages, convergence) with its `hashes` op: ban code, the request for
+//! more hashes and the resulting cache.
 
 use std::collections::BTreeSet;
 
@@ -43,9 +46,18 @@ enum Attack {
     ForgedFullCache,
     /// the same with the right hash in the last position (the next check point itself)
     ForgedCacheRightEnd,
+    /// after the finalized check point: one honest proved peer holds the latest filter hashes, the
+    /// lying proved peer holds made-up ones (a chain over quiet filters), the third peer holds none
+    /// for those blocks; quorum 2.  No hash is held by two peers: quiet filters from the liar must
+    /// have no effect
+    MinorityLatestHashes,
 }
 
-const ATTACKS: [Attack; 13] = [
+/// the attacks a history seed picks from with its own random stream (the pinned seeds of
+/// /verif/corpus/C06 depend on this number)
+const N_BASE_ATTACKS: usize = 13;
+
+const ATTACKS: [Attack; 14] = [
     Attack::TamperFilter,
     Attack::SubstituteHashOnChain,
     Attack::SubstituteHashRandom,
@@ -59,7 +71,21 @@ const ATTACKS: [Attack; 13] = [
     Attack::UnverifiedTail,
     Attack::ForgedFullCache,
     Attack::ForgedCacheRightEnd,
+    Attack::MinorityLatestHashes,
 ];
+
+/// The attacks appended after the pinned seeds were recorded take over a generated history with
+/// probability 1/8, decided by a stream of its own, and are written into the history's `len`:
+/// `len = 1000 * k + rounds` runs `ATTACKS[N_BASE_ATTACKS + k - 1]`.  A history with `len < 1000`
+/// (every pinned one) is bit for bit the history it was before.
+fn appended_attack_code(seed: u64) -> usize {
+    let mut r = Rng::new(seed ^ fnv("C06-appended-attacks"));
+    if r.chance(1, 8) {
+        1000 * (1 + r.below((ATTACKS.len() - N_BASE_ATTACKS) as u64) as usize)
+    } else {
+        0
+    }
+}
 
 /// ids for byte strings (hashes, filters)
 #[derive(Default)]
@@ -71,6 +97,252 @@ impl Abs {
         let n = self.ids.len() as u64 + 1;
         *self.ids.entry(b.to_vec()).or_insert(n)
     }
+}
+
+/// MinorityLatestHashes: a `BlockFilterHashes` answer for blocks after the finalized check point
+/// is cut after block `cap` (`None`: nothing is left, the peer stays silent); every other message
+/// passes
+fn cap_latest_hashes(node: &Node, m: Bytes, cap: u64) -> Option<Bytes> {
+    let parsed = packed::BlockFilterMessageReader::from_compatible_slice(&m).ok().and_then(|r| match r.to_enum() {
+        packed::BlockFilterMessageUnionReader::BlockFilterHashes(b) => Some(b.to_entity()),
+        _ => None,
+    });
+    let Some(bh) = parsed else { return Some(m) };
+    let start: u64 = bh.start_number().unpack();
+    let (fin_idx, _) = node.i().storage.get_last_check_point();
+    if start <= node.i().peers.calc_check_point_number(fin_idx) {
+        return Some(m);
+    }
+    let keep = (cap + 1).saturating_sub(start) as usize;
+    let hashes: Vec<Byte32> = bh.block_filter_hashes().into_iter().take(keep).collect();
+    if hashes.is_empty() {
+        return None;
+    }
+    Some(fmsg(bh.as_builder().block_filter_hashes(hashes.pack()).build()))
+}
+
+/// the `st` op: the client's state right now (+ the hashes it holds: check points, cache, latest)
+fn st_line(node: &Node, abs: &mut Abs, interval: u64) -> (String, Vec<Byte32>, Vec<Byte32>, Vec<Byte32>) {
+    let st = &node.i().storage;
+    let peers = &node.i().peers;
+    let (fin_idx, _) = st.get_last_check_point();
+    let cps: Vec<Byte32> = st.get_check_points(0, fin_idx as usize + 2);
+    let (cached_idx, cached) = peers.get_cached_block_filter_hashes();
+    let latest = peers.get_latest_block_filter_hashes(fin_idx);
+    let ids = |abs: &mut Abs, v: &[Byte32]| v.iter().map(|h| abs.id(h.as_slice()).to_string()).collect::<Vec<_>>().join(" ");
+    let line = format!(
+        "st {} {} {} {} {} | {} | {} | {}",
+        interval,
+        st.get_min_filtered_block_number(),
+        st.is_filter_scripts_empty() as u8,
+        fin_idx,
+        cached_idx,
+        ids(abs, &cps),
+        ids(abs, &cached),
+        ids(abs, &latest)
+    );
+    (line, cps, cached, latest)
+}
+
+/// the canonical form of a cache: `cache <index> <length> : <ids…>` (what the `hashes` op prints)
+fn cache_text(abs: &mut Abs, idx: u32, cached: &[Byte32]) -> String {
+    format!(
+        "cache {} {} : {}",
+        idx,
+        cached.len(),
+        cached.iter().map(|h| abs.id(h.as_slice()).to_string()).collect::<Vec<_>>().join(" ")
+    )
+}
+
+/// does a `BlockFilterHashes` message from `from` take the cached branch of
+/// `BlockFilterHashesProcess::execute`?  (the tests of the code, on the client's state right now)
+fn takes_cached_branch(node: &Node, from: PeerIndex, start: u64) -> bool {
+    let peers = &node.i().peers;
+    let proved = peers.get_state(&from).map(|s| s.get_prove_state().is_some()).unwrap_or(false);
+    if !proved {
+        return false;
+    }
+    let (fin_idx, _) = node.i().storage.get_last_check_point();
+    let fin_number = peers.calc_check_point_number(fin_idx);
+    let (cached_idx, _) = peers.get_cached_block_filter_hashes();
+    let cached_number = peers.calc_check_point_number(cached_idx);
+    let next_number = peers.calc_check_point_number(cached_idx + 1);
+    start <= fin_number && cached_number < start && start <= next_number
+}
+
+/// a `BlockFilterHashes` delivery that takes the cached branch: the `hashes` op of the model and
+/// what the implementation let us observe (ban code, request for more hashes, new cache)
+fn deliver_hashes_checked(
+    node: &mut Node,
+    abs: &mut Abs,
+    interval: u64,
+    from: PeerIndex,
+    bh: packed::BlockFilterHashes,
+    m: Bytes,
+    sink: &mut Sink,
+) -> Result<(), String> {
+    let start: u64 = bh.start_number().unpack();
+    let parent = bh.parent_block_filter_hash();
+    let hashes: Vec<Byte32> = bh.block_filter_hashes().into_iter().collect();
+    let (line, _, _, _) = st_line(node, abs, interval);
+    let op = format!(
+        "hashes 1 {} {} | {}",
+        start,
+        abs.id(parent.as_slice()),
+        hashes.iter().map(|h| abs.id(h.as_slice()).to_string()).collect::<Vec<_>>().join(" ")
+    );
+    let (ci0, c0) = node.i().peers.get_cached_block_filter_hashes();
+    let before = cache_text(abs, ci0, &c0);
+    // requests and bans stay queued for the caller: look at what is new only
+    let (sent0, bans0) = {
+        let rec = node.i().nc_filter.rec.lock().unwrap();
+        (rec.sent.len(), rec.banned.len())
+    };
+    catch(|| node.deliver(from, SupportProtocols::Filter.protocol_id(), m))?;
+    let (ban, ask) = {
+        let rec = node.i().nc_filter.rec.lock().unwrap();
+        let ban = rec.banned[bans0.min(rec.banned.len())..].iter().find(|b| b.0 == from).map(|b| {
+            b.2.split('(').nth(1).and_then(|t| t.split(')').next()).unwrap_or("?").to_string()
+        });
+        let ask = rec.sent[sent0.min(rec.sent.len())..].iter().find_map(|(_, _, data)| {
+            packed::BlockFilterMessageReader::from_compatible_slice(data).ok().and_then(|r| match r.to_enum() {
+                packed::BlockFilterMessageUnionReader::GetBlockFilterHashes(g) => Some(Unpack::<u64>::unpack(&g.start_number())),
+                _ => None,
+            })
+        });
+        (ban, ask)
+    };
+    let (ci, c) = node.i().peers.get_cached_block_filter_hashes();
+    let after = cache_text(abs, ci, &c);
+    let outcome = if let Some(code) = ban {
+        format!("banned {}", code)
+    } else if let Some(n) = ask {
+        format!("updated ask {}", n)
+    } else if after != before {
+        "updated ask none".to_string()
+    } else {
+        // ignored, or written again with the same content and no request for more hashes
+        "quiet".to_string()
+    };
+    sink.lines.push(line);
+    sink.impls.push(String::new());
+    sink.pre.push(String::new());
+    sink.owner.push(sink.cur);
+    sink.lines.push(op);
+    sink.impls.push(format!("{} {}", outcome, after));
+    sink.pre.push(before);
+    sink.owner.push(sink.cur);
+    Ok(())
+}
+
+/// Function-level differential of the cached branch on the live client: made-up finalized check
+/// points, a made-up position of the filtered height and a made-up (consistent) partial cache,
+/// then one filter-hashes message from a proved peer: continuous / overlapping / with a gap,
+/// ending before / at / after the next check point, honest or with one wrong hash (in the
+/// overlap, in the new part, at the check point) or a wrong parent.  Runs after the oracles of
+/// the history: the state it leaves is thrown away.
+fn probe_cached_hashes(node: &mut Node, abs: &mut Abs, interval: u64, seed: u64, sink: &mut Sink, rep: &mut Report) -> Result<(), String> {
+    let mut r = Rng::new(seed ^ fnv("C06-cache-probes"));
+    let Some(from) = [1usize, 2, 3]
+        .into_iter()
+        .map(PeerIndex::new)
+        .find(|p| node.i().peers.get_state(p).map(|s| s.get_prove_state().is_some()).unwrap_or(false))
+    else {
+        return Ok(());
+    };
+    let rnd = |r: &mut Rng| -> Byte32 {
+        let mut h = [0u8; 32];
+        h[..8].copy_from_slice(&r.next().to_le_bytes());
+        h[8..16].copy_from_slice(&r.next().to_le_bytes());
+        h.pack()
+    };
+    // four made-up finalized check points after the genesis one
+    let fin_idx: u32 = 4;
+    let mut cps: Vec<Byte32> = node.i().storage.get_check_points(0, 1);
+    for _ in 0..fin_idx {
+        cps.push(rnd(&mut r));
+    }
+    node.i().storage.update_check_points(1, &cps[1..]);
+    node.i().storage.update_max_check_point_index(fin_idx);
+    let probes = if interval > 100 { 3 } else { 12 };
+    for _ in 0..probes {
+        let c = r.below(fin_idx as u64);
+        let base = c * interval;
+        // the hashes of the interval: the last one is the next check point
+        let mut truth: Vec<Byte32> = (1..interval).map(|_| rnd(&mut r)).collect();
+        truth.push(cps[c as usize + 1].clone());
+        let l = match r.below(4) {
+            0 => 0,
+            1 => interval,
+            _ => r.below(interval + 1),
+        };
+        let min_f = base + r.below(interval);
+        node.i().storage.update_min_filtered_block_number(min_f);
+        // leave the interval and come back: the cache is emptied, then filled by hand
+        node.i().peers.update_min_filtered_block_number(base + 2 * interval);
+        node.i().peers.update_min_filtered_block_number(min_f);
+        node.i().peers.update_cached_block_filter_hashes(truth[..l as usize].to_vec());
+        // the message
+        let off = match r.below(6) {
+            0 => 0,
+            1 => l,
+            2 => (l + 1 + r.below(2)).min(interval - 1), // a gap (or the end of the interval)
+            _ => r.below(l + 1),
+        }
+        .min(interval - 1);
+        let start = base + 1 + off;
+        let to_next = interval - off; // hashes up to the next check point
+        let len = match r.below(6) {
+            0 => to_next,
+            1 => to_next + 1 + r.below(3),
+            2 => 0,
+            3 => to_next.saturating_sub(1),
+            _ => r.below(to_next + 3),
+        };
+        let mut hashes: Vec<Byte32> = (0..len).map(|i| truth.get((off + i) as usize).cloned().unwrap_or_else(|| rnd(&mut r))).collect();
+        let mut parent = if off == 0 { cps[c as usize].clone() } else { truth[off as usize - 1].clone() };
+        let mut what = "honest";
+        match r.below(8) {
+            0 if !hashes.is_empty() => {
+                let i = r.below(hashes.len() as u64) as usize;
+                hashes[i] = rnd(&mut r);
+                what = "one-wrong-hash";
+            }
+            1 if len >= to_next => {
+                hashes[to_next as usize - 1] = rnd(&mut r);
+                what = "wrong-check-point";
+            }
+            2 => {
+                parent = rnd(&mut r);
+                what = "wrong-parent";
+            }
+            3 if len >= to_next && to_next >= 2 => {
+                // the forged middle: everything but the check point made up
+                for h in hashes.iter_mut().take(to_next as usize - 1) {
+                    *h = rnd(&mut r);
+                }
+                what = "made-up-middle";
+            }
+            _ => {}
+        }
+        let bh = packed::BlockFilterHashes::new_builder()
+            .start_number(start.pack())
+            .parent_block_filter_hash(parent)
+            .block_filter_hashes(hashes.pack())
+            .build();
+        if !takes_cached_branch(node, from, start) {
+            rep.count_class("hashes:probe:other-branch");
+            continue;
+        }
+        rep.count_class(&format!("hashes:probe:{}", what));
+        let _ = catch(|| node.collect());
+        if node.i().peers.get_state(&from).map(|s| s.get_prove_state().is_none()).unwrap_or(true) {
+            // the probed peer was banned by an earlier probe
+            return Ok(());
+        }
+        deliver_hashes_checked(node, abs, interval, from, bh.clone(), fmsg(bh), sink)?;
+    }
+    Ok(())
 }
 
 /// the `Filter` model ops for one `BlockFilters` message from `from`, against the client's state
@@ -85,25 +357,11 @@ fn model_ops(
     filters: &[packed::Bytes],
     hashes: &[Byte32],
 ) -> Vec<String> {
-    let st = &node.i().storage;
     let peers = &node.i().peers;
-    let (fin_idx, _) = st.get_last_check_point();
-    let cps: Vec<Byte32> = st.get_check_points(0, fin_idx as usize + 2);
-    let (cached_idx, cached) = peers.get_cached_block_filter_hashes();
-    let latest = peers.get_latest_block_filter_hashes(fin_idx);
     let proved = peers.get_state(&from).map(|s| s.get_prove_state().is_some()).unwrap_or(false);
     let ids = |abs: &mut Abs, v: &[Byte32]| v.iter().map(|h| abs.id(h.as_slice()).to_string()).collect::<Vec<_>>().join(" ");
-    let mut out = vec![format!(
-        "st {} {} {} {} {} | {} | {} | {}",
-        interval,
-        st.get_min_filtered_block_number(),
-        st.is_filter_scripts_empty() as u8,
-        fin_idx,
-        cached_idx,
-        ids(abs, &cps),
-        ids(abs, &cached),
-        ids(abs, &latest)
-    )];
+    let (line, cps, cached, latest) = st_line(node, abs, interval);
+    let mut out = vec![line];
     // the hash table: the message's filters chained from every hash the client knows
     let mut parents: Vec<Byte32> = cps.clone();
     parents.extend(cached.iter().cloned());
@@ -140,11 +398,14 @@ fn model_ops(
 struct Sink {
     lines: Vec<String>,
     impls: Vec<String>,
+    /// `hashes` ops: the cache before the delivery (canonical text); empty for the other ops
+    pre: Vec<String>,
     owner: Vec<(u64, usize)>,
     cur: (u64, usize),
 }
 
-/// deliver a filter-protocol message; a `BlockFilters` message is also given to the model
+/// deliver a filter-protocol message; a `BlockFilters` message and a `BlockFilterHashes` message
+/// that takes the cached branch are also given to the model
 fn deliver_checked(
     node: &mut Node,
     br: &Branch,
@@ -155,6 +416,47 @@ fn deliver_checked(
     sink: &mut Sink,
     rep: &mut Report,
 ) -> Result<(), String> {
+    deliver_checked_with(node, br, abs, interval, from, m, sink, rep, true)
+}
+
+/// the same without consuming the requests the client has queued (a `BlockFilters` delivery of
+/// `deliver_checked` drops them: the histories of the pinned seeds depend on that)
+fn deliver_checked_nodrain(
+    node: &mut Node,
+    br: &Branch,
+    abs: &mut Abs,
+    interval: u64,
+    from: PeerIndex,
+    m: Bytes,
+    sink: &mut Sink,
+    rep: &mut Report,
+) -> Result<(), String> {
+    deliver_checked_with(node, br, abs, interval, from, m, sink, rep, false)
+}
+
+#[allow(clippy::too_many_arguments)]
+fn deliver_checked_with(
+    node: &mut Node,
+    br: &Branch,
+    abs: &mut Abs,
+    interval: u64,
+    from: PeerIndex,
+    m: Bytes,
+    sink: &mut Sink,
+    rep: &mut Report,
+    drain: bool,
+) -> Result<(), String> {
+    let hashes_msg = packed::BlockFilterMessageReader::from_compatible_slice(&m).ok().and_then(|r| match r.to_enum() {
+        packed::BlockFilterMessageUnionReader::BlockFilterHashes(b) => Some(b.to_entity()),
+        _ => None,
+    });
+    if let Some(bh) = hashes_msg {
+        if takes_cached_branch(node, from, bh.start_number().unpack()) {
+            return deliver_hashes_checked(node, abs, interval, from, bh, m, sink);
+        }
+        rep.count_class("hashes:other-branch");
+        return catch(|| node.deliver(from, SupportProtocols::Filter.protocol_id(), m));
+    }
     let parsed = packed::BlockFilterMessageReader::from_compatible_slice(&m).ok().and_then(|r| match r.to_enum() {
         packed::BlockFilterMessageUnionReader::BlockFilters(b) => Some(b.to_entity()),
         _ => None,
@@ -167,16 +469,17 @@ fn deliver_checked(
     let hashes: Vec<Byte32> = bf.block_hashes().into_iter().collect();
     let ops = model_ops(node, br, abs, interval, from, claim_start, &filters, &hashes);
     let st_before = state(node);
-    let _ = node.collect();
-    let bans_before = node.bans.len();
+    if drain {
+        let _ = node.collect();
+    }
+    let bans_before = node.i().nc_filter.rec.lock().unwrap().banned.len();
     catch(|| node.deliver(from, SupportProtocols::Filter.protocol_id(), m))?;
     // bans are recorded by the context; requests the client sent in reaction stay queued for
-    // the caller: `collect` would consume them, so peek at the bans only
+    // the caller: `collect` would consume them, so peek at the (new) bans only
     let new_bans: Vec<(u64, String)> = {
         let rec = node.i().nc_filter.rec.lock().unwrap();
-        rec.banned.iter().map(|(p, _, r)| (p.value() as u64, r.clone())).collect()
+        rec.banned[bans_before.min(rec.banned.len())..].iter().map(|(p, _, r)| (p.value() as u64, r.clone())).collect()
     };
-    let _ = bans_before;
     let st_after = state(node);
     let ban = new_bans.iter().find(|b| b.0 == from.value() as u64).map(|b| {
         b.1.split('(').nth(1).and_then(|t| t.split(')').next()).unwrap_or("?").to_string()
@@ -201,10 +504,16 @@ fn deliver_checked(
     for (i, l) in ops.into_iter().enumerate() {
         sink.lines.push(l);
         sink.impls.push(if i + 1 == n { format!("{} minF {} cache {} {}", res, st_after.min_f, ci, c.len()) } else { String::new() });
+        sink.pre.push(String::new());
         sink.owner.push(sink.cur);
     }
     rep.count_class(&format!("model:{}", res.split(' ').next().unwrap_or("")));
     Ok(())
+}
+
+/// the interval of the `st` op in front of op `i`
+fn owner_interval(lines: &[String], i: usize) -> u64 {
+    lines[..i].iter().rev().find(|l| l.starts_with("st ")).and_then(|l| l.split(' ').nth(1)).and_then(|t| t.parse().ok()).unwrap_or(0)
 }
 
 struct State {
@@ -260,7 +569,14 @@ pub fn run(opts: &Options) -> Report {
         by another chain block / a random hash, filters of other heights under the expected start \
         number, wrong start number, count mismatch, truncated batch, fake partial filter-hash chain \
         inside a finalized interval followed by matching fake filters, batch from an unproven peer, \
-        honest unsolicited batch), more honest rounds, convergence with the honest peers; oracles: \
+        honest unsolicited batch, a full interval of made-up cached hashes with a made-up / the right \
+        last entry, made-up latest hashes held by the liar alone (one honest peer holds the real ones, \
+        the third peer none for those blocks: no hash has the quorum) followed by matching made-up \
+        filters, repeated), more honest rounds, convergence with the honest peers; every BlockFilters \
+        delivery and every BlockFilterHashes delivery that takes the cached branch (honest rounds, \
+        attack, convergence, and after the oracles of each history 3..12 deliveries on made-up cache \
+        states: gaps, overlaps, excess, wrong parent / hash / check point) is compared with the Lean \
+        Filter layer (ban code, request for more hashes, resulting cache); oracles: \
         the accepted prefix of a message that moved the filtered height or recorded matched blocks is \
         the chain's own (filters and block hashes), and the final index equals the ground truth; \
         non-trivial = the attack message got past the start-number check; distinct = (seed)"
@@ -277,11 +593,12 @@ pub fn run(opts: &Options) -> Report {
         }
         let n = if opts.thorough() { 2500 } else { 120 };
         for _ in 0..n {
-            seeds.push((rng.next(), rng.range(2, 14) as usize));
+            let (s, l) = (rng.next(), rng.range(2, 14) as usize);
+            seeds.push((s, l + appended_attack_code(s)));
         }
     }
     let debug = std::env::var("VERIF_DEBUG_SYNC").is_ok();
-    let mut sink = Sink { lines: Vec::new(), impls: Vec::new(), owner: Vec::new(), cur: (0, 0) };
+    let mut sink = Sink { lines: Vec::new(), impls: Vec::new(), pre: Vec::new(), owner: Vec::new(), cur: (0, 0) };
     for (seed, len) in seeds.iter() {
         let mut abs = Abs::default();
         sink.cur = (*seed, *len);
@@ -291,11 +608,20 @@ pub fn run(opts: &Options) -> Report {
         let mut br = Branch::new();
         let n_blocks = r.range(40, 110);
         br.extend(&mut r, n_blocks, 1);
-        let attack = r.pick(&ATTACKS).clone();
+        let attack = r.pick(&ATTACKS[..N_BASE_ATTACKS]).clone();
+        let attack = if *len >= 1000 { ATTACKS[(N_BASE_ATTACKS + *len / 1000 - 1).min(ATTACKS.len() - 1)].clone() } else { attack };
+        // MinorityLatestHashes: peers 2 and 3 answer requests for the latest filter hashes (after
+        // the finalized check point) only up to block `cap`; peer 1 answers them all
+        let minority_cap: Option<u64> = if attack == Attack::MinorityLatestHashes {
+            let mut r2 = Rng::new(*seed ^ fnv("C06-minority-cap"));
+            Some(r2.range(0, br.chain.tip_number().saturating_sub(2)))
+        } else {
+            None
+        };
         // what the chain looks like a few blocks later (the client has not heard of these blocks)
         let mut br2 = br.fork_of(br.chain.tip_number(), 5);
         br2.extend(&mut r, 8, 5);
-        let rounds_before = *len;
+        let rounds_before = *len % 1000;
         let replay = |extra: String| {
             vec![
                 format!("history-seed {} len {}", seed, len),
@@ -339,6 +665,13 @@ pub fn run(opts: &Options) -> Report {
                 for (protocol, p, data) in sent {
                     if let Ok(replies) = server::handle(chain, &sopts, protocol, &data) {
                         for (rp, bytes) in replies {
+                            let bytes = match minority_cap {
+                                Some(cap) if p != p1 && rp == SupportProtocols::Filter.protocol_id() => match cap_latest_hashes(&node, bytes, cap) {
+                                    Some(b) => b,
+                                    None => continue,
+                                },
+                                _ => bytes,
+                            };
                             let r = if rp == SupportProtocols::Filter.protocol_id() {
                                 deliver_checked(&mut node, &br, &mut abs, interval, p, bytes, &mut sink, &mut rep)
                             } else {
@@ -399,6 +732,62 @@ pub fn run(opts: &Options) -> Report {
                 }
             }
         }
+        // the latest-hashes attack needs the filtered height at or after the finalized check point
+        // and the honest peer's latest hashes: go on, round by round (peers 2 and 3 stay capped)
+        if let (None, Some(cap)) = (&aborted, minority_cap) {
+            let ready = |node: &Node| {
+                let (fin_idx, _) = node.i().storage.get_last_check_point();
+                let fin_number = fin_idx as u64 * interval;
+                let min_f = node.i().storage.get_min_filtered_block_number();
+                min_f >= fin_number && min_f >= cap.min(chain.tip_number())
+            };
+            let mut settled = 0;
+            'more: for _ in 0..120 {
+                if ready(&node) {
+                    settled += 1;
+                    if settled > 3 {
+                        break;
+                    }
+                }
+                now += 3000;
+                set_now(now);
+                node.im().filter.last_ask_time.write().unwrap().take();
+                if let Err(e) = catch(|| node.tick_all()) {
+                    aborted = Some(e);
+                    break;
+                }
+                for _ in 0..20 {
+                    let sent = node.collect();
+                    if sent.is_empty() {
+                        break;
+                    }
+                    for (protocol, p, data) in sent {
+                        if let Ok(replies) = server::handle(chain, &sopts, protocol, &data) {
+                            for (rp, bytes) in replies {
+                                let is_filter = rp == SupportProtocols::Filter.protocol_id();
+                                let bytes = if p != p1 && is_filter {
+                                    match cap_latest_hashes(&node, bytes, cap) {
+                                        Some(b) => b,
+                                        None => continue,
+                                    }
+                                } else {
+                                    bytes
+                                };
+                                let r = if is_filter {
+                                    deliver_checked_nodrain(&mut node, &br, &mut abs, interval, p, bytes, &mut sink, &mut rep)
+                                } else {
+                                    catch(|| node.deliver(p, rp, bytes))
+                                };
+                                if let Err(e) = r {
+                                    aborted = Some(e);
+                                    break 'more;
+                                }
+                            }
+                        }
+                    }
+                }
+            }
+        }
         // ---- the attack
         if aborted.is_none() {
             let before = state(&node);
@@ -412,13 +801,14 @@ pub fn run(opts: &Options) -> Report {
                 .find(|p| node.i().peers.get_state(p).map(|s| s.get_prove_state().is_some()).unwrap_or(false))
                 .unwrap_or(p3);
             let mut msgs: Vec<(PeerIndex, Bytes)> = Vec::new();
+            let mut repeats: Vec<(PeerIndex, Bytes)> = Vec::new();
             let mut claim_start = start;
             let mut sent_filters: Vec<packed::Bytes> = Vec::new();
             let mut _sent_hashes: Vec<Byte32> = Vec::new();
             let mut note = String::new();
             let base = honest_filters(&br, start, r.range(1, 30)).or_else(|| {
                 // everything is filtered already: the tail attack needs no honest prefix
-                if attack == Attack::UnverifiedTail { Some((Vec::new(), Vec::new())) } else { None }
+                if matches!(attack, Attack::UnverifiedTail | Attack::MinorityLatestHashes) { Some((Vec::new(), Vec::new())) } else { None }
             });
             if let Some((mut filters, mut hashes)) = base {
                 let j = r.below(filters.len() as u64) as usize;
@@ -552,6 +942,83 @@ pub fn run(opts: &Options) -> Report {
                             hashes.clear();
                         }
                     }
+                    Attack::MinorityLatestHashes => {
+                        // A = the last block two peers can agree on: peers 2 and 3 hold honest
+                        // latest hashes up to `cap` at most, the filtered height is not beyond it
+                        let cap = minority_cap.unwrap_or(0);
+                        let a = before.min_f.max(fin_number).max(cap);
+                        let liar_tip = node
+                            .i()
+                            .peers
+                            .get_state(&p3)
+                            .and_then(|s| s.get_prove_state().map(|ps| ps.get_last_header().header().number()))
+                            .unwrap_or(0)
+                            .min(chain.tip_number());
+                        let (_, fin_cp) = node.i().storage.get_last_check_point();
+                        let required = node.i().peers.required_peers_count();
+                        // a filter that is not the filter of the first forged block: a quiet one (the
+                        // block's activity is skipped) or, for a quiet block, any other one
+                        let differs = |n: &u64| a + 1 <= chain.tip_number() && chain.filters[*n as usize].as_slice() != chain.filters[(a + 1) as usize].as_slice();
+                        let qf = (1..=chain.tip_number())
+                            .filter(|n| !br.facts.iter().any(|f| f.1 == *n))
+                            .find(differs)
+                            .or_else(|| (1..=chain.tip_number()).find(differs))
+                            .map(|n| chain.filters[n as usize].clone());
+                        filters.clear();
+                        hashes.clear();
+                        match qf {
+                            Some(qf) if required == 2 && p3 != p1 && start > fin_number && a + 1 <= liar_tip && fin_cp == chain.filter_hashes[fin_number as usize] => {
+                                // the liar's latest hashes: honest up to A, then a chain over the
+                                // quiet filter
+                                let mut lie: Vec<Byte32> = (fin_number + 1..=a).map(|n| chain.filter_hashes[n as usize].clone()).collect();
+                                let mut parent = chain.filter_hashes[a as usize].clone();
+                                for _ in a + 1..=liar_tip {
+                                    let h: Byte32 = calc_filter_hash(&parent, &qf).pack();
+                                    lie.push(h.clone());
+                                    parent = h;
+                                }
+                                let hm = fmsg(
+                                    packed::BlockFilterHashes::new_builder()
+                                        .start_number((fin_number + 1).pack())
+                                        .parent_block_filter_hash(fin_cp)
+                                        .block_filter_hashes(lie.pack())
+                                        .build(),
+                                );
+                                msgs.push((p3, hm));
+                                rep.count_class("minority:applicable");
+                                // honest filters up to A, quiet filters for the rest
+                                for n in start..=liar_tip {
+                                    filters.push(if n <= a { chain.filters[n as usize].clone() } else { qf.clone() });
+                                    hashes.push(chain.block(n).hash());
+                                }
+                                // which of two hashes with one vote each a changed quorum test would
+                                // take is decided by a HashMap order: the liar repeats the made-up
+                                // tail (the first message may have moved the filtered height to A)
+                                let k = (a + 1 - start) as usize;
+                                for _ in 0..9 {
+                                    repeats.push((p3, build(a + 1, &filters[k..], &hashes[k..])));
+                                }
+                                note = format!(
+                                    "peers 2,3 capped at {}: liar {} sends latest hashes {}..={} honest up to {} then made up, then {} honest filters from {} followed by made-up filters for {}..={} (x10)",
+                                    cap, p3, fin_number + 1, liar_tip, a, k, start, a + 1, liar_tip
+                                );
+                            }
+                            _ => {
+                                rep.count_class("minority:not-applicable");
+                                note = format!(
+                                    "not applicable here (required {} liar {} start {} finalized {} A {} liar tip {} quiet filter {} check point is the chain's {})",
+                                    required,
+                                    p3,
+                                    start,
+                                    fin_number,
+                                    a,
+                                    liar_tip,
+                                    qf.is_some(),
+                                    fin_cp == chain.filter_hashes[fin_number as usize]
+                                );
+                            }
+                        }
+                    }
                     Attack::PartialCache => {
                         // only inside a finalized interval whose hashes are not cached yet
                         let cached_number = cached_idx as u64 * interval;
@@ -588,11 +1055,12 @@ pub fn run(opts: &Options) -> Report {
                         }
                     }
                 }
-                if !(filters.is_empty() && hashes.is_empty() && matches!(attack, Attack::PartialCache | Attack::ForgedFullCache | Attack::ForgedCacheRightEnd)) {
+                if !(filters.is_empty() && hashes.is_empty() && matches!(attack, Attack::PartialCache | Attack::ForgedFullCache | Attack::ForgedCacheRightEnd | Attack::MinorityLatestHashes)) {
                     msgs.push((from, build(claim_start, &filters, &hashes)));
                     sent_filters = filters;
                     _sent_hashes = hashes;
                 }
+                msgs.extend(repeats);
             }
             for (from, m) in msgs.into_iter() {
                 if let Err(e) = deliver_checked(&mut node, &br, &mut abs, interval, from, m, &mut sink, &mut rep) {
@@ -666,8 +1134,71 @@ pub fn run(opts: &Options) -> Report {
                     node.connect(p);
                 }
             }
-            if let Err(e) = catch(|| node.run_to_quiescence(&chain_of, &sopts, &mut now, 3000, 400)) {
-                conv_abort = Some(e);
+            // `Node::run_to_quiescence` with the filter-hash deliveries of the cached branch given
+            // to the model as well (the same rounds, requests and deliveries)
+            let mut idle = 0;
+            'conv: for _ in 0..400 {
+                now += 3000;
+                set_now(now);
+                node.im().filter.last_ask_time.write().unwrap().take();
+                if let Err(e) = catch(|| node.tick_all()) {
+                    conv_abort = Some(e);
+                    break 'conv;
+                }
+                let mut served = 0;
+                for _ in 0..200 {
+                    let sent = match catch(|| node.collect()) {
+                        Ok(s) => s,
+                        Err(e) => {
+                            conv_abort = Some(e);
+                            break 'conv;
+                        }
+                    };
+                    if sent.is_empty() {
+                        break;
+                    }
+                    for (protocol, peer, data) in sent {
+                        let Some(c) = chain_of(peer) else { continue };
+                        served += 1;
+                        let answer = match catch(|| server::handle(c, &sopts, protocol, &data)) {
+                            Ok(a) => a,
+                            Err(e) => {
+                                conv_abort = Some(e);
+                                break 'conv;
+                            }
+                        };
+                        match answer {
+                            Ok(replies) => {
+                                for (rp, bytes) in replies {
+                                    let is_hashes = rp == SupportProtocols::Filter.protocol_id()
+                                        && packed::BlockFilterMessageReader::from_compatible_slice(&bytes)
+                                            .map(|r| matches!(r.to_enum(), packed::BlockFilterMessageUnionReader::BlockFilterHashes(_)))
+                                            .unwrap_or(false);
+                                    let r = if is_hashes {
+                                        deliver_checked_nodrain(&mut node, &br2, &mut abs, interval, peer, bytes, &mut sink, &mut rep)
+                                    } else {
+                                        catch(|| node.deliver(peer, rp, bytes))
+                                    };
+                                    if let Err(e) = r {
+                                        conv_abort = Some(e);
+                                        break 'conv;
+                                    }
+                                }
+                            }
+                            Err(e) => node.server_errors.push(format!("{}: {}", super::node::request_name(protocol, &data), e)),
+                        }
+                    }
+                }
+                if served == 0 {
+                    idle += 1;
+                    if idle >= 3 {
+                        break;
+                    }
+                } else {
+                    idle = 0;
+                }
+            }
+            if conv_abort.is_some() {
                 break;
             }
             let quiet = node.i().peers.matched_blocks().read().unwrap().is_empty()
@@ -709,13 +1240,52 @@ pub fn run(opts: &Options) -> Report {
         if debug {
             eprintln!("   bans {:?}", node.bans);
         }
+        // ---- after all oracles: the cache update alone, on made-up states of this client
+        if opts.replay.is_none() || std::env::var("C06_PROBES").is_ok() {
+            if let Err(e) = probe_cached_hashes(&mut node, &mut abs, interval, *seed, &mut sink, &mut rep) {
+                rep.violate(
+                    &format!("C06|abort|hashes-probe|{}", super::c14::panic_class(&e)),
+                    "the client aborts on a BlockFilterHashes message (made-up state of the cache)",
+                    replay(format!("# panic in the cache probes (C06_PROBES=1 to run them in a replay): {}", e)),
+                );
+            }
+        }
     }
     ckb_systemtime::faketime().disable_faketime();
-    let (all_lines, all_impls, owner) = (sink.lines, sink.impls, sink.owner);
+    let (all_lines, all_impls, all_pre, owner) = (sink.lines, sink.impls, sink.pre, sink.owner);
     let answers = run_model(opts, "filter", &all_lines);
     let mut bad = BTreeSet::new();
     for (i, a) in answers.iter().enumerate() {
         if all_impls[i].is_empty() {
+            continue;
+        }
+        if all_lines[i].starts_with("hashes ") {
+            // the model: `<ignored | banned c | updated ask n | updated ask none | other> cache …`;
+            // "ignored" and "written again, same content, nothing more to ask" look the same from
+            // outside
+            let (outcome, cache) = match a.find(" cache ") {
+                Some(k) => (a[..k].to_string(), a[k + 1..].to_string()),
+                None => (a.clone(), String::new()),
+            };
+            let seen = if outcome == "ignored" || (outcome == "updated ask none" && cache == all_pre[i]) { "quiet".to_string() } else { outcome.clone() };
+            if format!("{} {}", seen, cache) == all_impls[i] {
+                rep.traces_validated += 1;
+                let class = if outcome.starts_with("updated") {
+                    if cache == all_pre[i] { "updated-same" } else if cache.split(' ').nth(2).and_then(|l| l.parse::<u64>().ok()) == Some(owner_interval(&all_lines, i)) { "updated-complete" } else { "updated-partial" }
+                } else if outcome.starts_with("banned") {
+                    "banned"
+                } else {
+                    "ignored"
+                };
+                rep.count_class(&format!("hashes:cached:{}", class));
+            } else if bad.insert(owner[i]) {
+                let cut = |t: &str| if t.len() > 700 { format!("{} … ({} bytes)", &t[..700], t.len()) } else { t.to_string() };
+                rep.disagree(
+                    &format!("{}  ||  {}  [history-seed {} len {}]", cut(&all_lines[i - 1]), cut(&all_lines[i]), owner[i].0, owner[i].1),
+                    &cut(&all_impls[i]),
+                    &cut(a),
+                );
+            }
             continue;
         }
         // the model's "accepted 0 []" (nothing to check against) is not observable
